@@ -124,3 +124,67 @@ def form_agree(ctx, modules=None):
                    why='%s returns different values for the scalar form and for one row of the '
                        'stacked form of the same input: %s' % (fq, '; '.join(diff[:4])))
     ctx.floor('FORM-AGREE', n, 5 if modules else 12, 'dual-form functions compared')
+
+
+def _same(A, x, y):
+    """structural equality of evaluator values (normal-form equality on scalars)"""
+    if isinstance(x, Rat) and isinstance(y, Rat):
+        return A.key(x) == A.key(y) or (not A.refuted(x, y) and A.eq(x, y))
+    if isinstance(x, SArray) and isinstance(y, SArray):
+        if x.shape != y.shape:
+            return False
+        for i in x.indices():
+            try:
+                a, b = x.get(i), y.get(i)
+            except Unsupported:
+                return False
+            if not _same(A, a, b):
+                return False
+        return True
+    if isinstance(x, Opaque) and isinstance(y, Opaque):
+        return x.tag == y.tag and len(x.parts) == len(y.parts) and \
+            all(_same(A, a, b) for a, b in zip(x.parts, y.parts))
+    if isinstance(x, (tuple, list)) and isinstance(y, (tuple, list)):
+        return len(x) == len(y) and all(_same(A, a, b) for a, b in zip(x, y))
+    if isinstance(x, dict) and isinstance(y, dict):
+        return set(x) == set(y) and all(_same(A, x[k], y[k]) for k in x)
+    if x is None or isinstance(x, (str, int, float, bool)):
+        return x == y
+    return False
+
+
+def form_agree_tables(ctx):
+    """Series form (one state) vs DataFrame form (a table of states) of the error-model
+    methods that accept both: the row of the table result equals the Series result."""
+    from . import errmodel
+    from ..expr import Rec
+    ctx.rule('FORM-AGREE', 'error-model methods: the result for one row of a Trajectory table '
+             'equals the result for that row passed as a Pva series')
+    repo = ctx.repo
+    n = 0
+    for wa in (True, False):
+        for mname in ('system_matrices', 'transform_to_output', 'transform_to_internal'):
+            A = Alg()
+            res = {}
+            f = None
+            for kind in ('series', 'frame'):
+                ev = SymEval(repo, A, hooks=errmodel._H())
+                ev.stacked = ev.columns_are_series = (kind == 'frame')
+                emc, em = errmodel._em(ctx, ev, wa)
+                f = emc.methods.get(mname)
+                ctx.need(f is not None, 'InsErrorModel.%s missing' % mname)
+                cols = {k: A.sym(k) for k in repo.const('util.TRAJECTORY_COLS')}
+                try:
+                    res[kind] = ev.call_function(f, [Rec(cols, kind)], {}, em)
+                except Unsupported as e:
+                    raise AnalysisError('InsErrorModel.%s not analysable in %s form: %s'
+                                        % (mname, kind, e))
+            ctx.touch(f)
+            n += 1
+            ctx.ob('FORM-AGREE', _same(A, res['series'], res['frame']), None,
+                   'InsErrorModel.%s (with_altitude=%s): Series and DataFrame forms agree'
+                   % (mname, wa), f=f, key='table-%s-%s' % (mname, wa),
+                   why='InsErrorModel.%s (with_altitude=%s) computes different values for a Pva '
+                       'series and for the same state as a row of a Trajectory table'
+                       % (mname, wa))
+    ctx.floor('FORM-AGREE', n, 6, 'table/series method pairs')
